@@ -260,6 +260,8 @@ func (y *yieldVars) FindByName(n string) variables.IVariable {
 
 type c19Harness struct {
 	name string
+	// expect, when set, is the result thread i must produce by construction (independent of any run)
+	expect func(i int) string
 	// build returns thread bodies writing into results, a pre/post snapshot function, and a description
 	build func(nThreads int, results []string) (bodies []func(), snapshot func() uint64)
 }
@@ -355,6 +357,36 @@ func c19Harnesses() []c19Harness {
 			return safeObs(func() string { return tokStr(toRecs(t.TokenizeBuffer([]string{"a,\"b\"\r\nc", "x\n\ry", "\"q\"\"q\",z\r"}[i%3]))) })
 		}},
 	}
+	// H4: every thread owns a calculator and registers ITS OWN function and variable in the
+	// calculator's default tables; the expected value is known by construction
+	hs = append(hs, c19Harness{name: "H4 separate calculators with their own default functions and variables",
+		expect: func(i int) string { return variantStr(variants.VariantFromInteger(i*1000 + i + 7)) },
+		build: func(n int, results []string) ([]func(), func() uint64) {
+			calcs := make([]*calculator.ExpressionCalculator, n)
+			for i := 0; i < n; i++ {
+				i := i
+				calcs[i] = calculator.NewExpressionCalculator()
+				calcs[i].DefaultFunctions().Add(functions.NewDelegatedFunction("Own", func(args []*variants.Variant, ops variants.IVariantOperations) (*variants.Variant, error) {
+					sched.Yield("callback:Own")
+					return variants.VariantFromInteger(i * 1000), nil
+				}))
+				calcs[i].DefaultVariables().Add(variables.NewVariable("mine", variants.VariantFromInteger(i)))
+			}
+			bodies := []func(){}
+			for i := 0; i < n; i++ {
+				i := i
+				bodies = append(bodies, func() {
+					results[i] = safeObs(func() string {
+						if err := calcs[i].SetExpression("Own() + mine + Max(3, 7)"); err != nil {
+							return "set:" + errStr(err)
+						}
+						r, err := calcs[i].Evaluate()
+						return resultStr(r, err, nil)
+					})
+				})
+			}
+			return bodies, func() uint64 { return 0 }
+		}})
 	for _, o := range owns {
 		o := o
 		hs = append(hs, c19Harness{name: "H3 separate instances: " + o.name, build: func(n int, results []string) ([]func(), func() uint64) {
@@ -388,6 +420,10 @@ func c19Schedules(c *fw.Ctx, h c19Harness, nThreads, boundShort, boundLong, thre
 		bodies, _ := h.build(nThreads, res)
 		bodies[i]()
 		want[i] = res[i]
+		if h.expect != nil && want[i] != h.expect(i) {
+			c.Violation("instances-share-state", "%s: thread %d run alone returns %s, by construction it must return %s", h.name, i, want[i], h.expect(i))
+			return
+		}
 	}
 	globals := allGlobals()
 	g0 := snap.Hash(globals...)
